@@ -1201,6 +1201,25 @@ def _call_op(m, name):
 def r_cache(m, rep, R):
     """both rule lambdas memoise per (x, y) key: the callback is asked only when the key is absent, nothing is erased or
     overwritten, and the stored vector is what is returned.  The two lambdas may share one helper lambda."""
+    # nothing in the search (lambdas included) ever removes an entry: the finalizer reads labels and head directions back
+    # from the cache by (key, rule id) after the search, for every node of the derivation
+    shrink = []
+    for n_ in m.ps.walk():
+        if n_.kind == 'CXXMemberCallExpr' and n_.kids:
+            cal_ = strip(n_.kids[0])
+            if cal_.kind == 'MemberExpr' and cal_.name in ('clear', 'erase', 'swap', 'extract', 'rehash_and_clear') and cal_.kids:
+                obj_ = term(cal_.kids[0], m.env)
+                if obj_ in (V(m.p_cache), ('deref', V(m.p_cache))):
+                    shrink.append((n_.line, cal_.name))
+        if n_.kind in ('BinaryOperator', 'CXXOperatorCallExpr') and (n_.op == '=' or (n_.kids and strip(n_.kids[0]).ref == 'operator=')):
+            tgt_ = n_.kids[0] if n_.kind == 'BinaryOperator' else (n_.kids[1] if len(n_.kids) > 1 else None)
+            if tgt_ is not None and term(tgt_, m.env) == ('deref', V(m.p_cache)):
+                shrink.append((n_.line, 'assignment'))
+    shrink = sorted(set(shrink))
+    rep.check(not shrink, R, _w(shrink[0][0] if shrink else m.ps.line), 'cache:never-shrinks',
+              'no statement of the search removes entries from the rule cache',
+              'the rule cache is emptied / entries are removed during the search (%s): a node built earlier in the same sentence loses the entry its rule id '
+              'indexes, and the finalizer reads past the end of an empty result list' % ', '.join('%s at line %s' % (nm_, ln_) for ln_, nm_ in shrink))
     for kind, cbparam in (('binary', m.p_bin), ('unary', m.p_un)):
         if getattr(m, 'lookup_fn', None) is not None and kind not in m.lam:
             # one lookup function that is handed the callback: judged once per kind with its parameters bound
